@@ -16,27 +16,48 @@ def main():
     patch = os.path.join(src, "patch.diff")
     demo = os.path.join(src, "demo.rs")
     meta = json.load(open(os.path.join(src, "meta.json")))
+    safe = meta.get("kind") in ("bit-identical", "property-preserving")
+    if props == ["auto"]:
+        if safe:
+            by_file = {"poly.rs": ["C01", "C07", "C08", "C14", "C17"], "log_poly.rs": ["C01", "C09", "C10", "C14"],
+                       "piecewise.rs": ["C02", "C03", "C11", "C12", "C13", "C15", "C16"], "spline.rs": ["C04", "C05"], "linear.rs": ["C06"]}
+            props = []
+            for f in meta.get("files", []):
+                for p in by_file.get(os.path.basename(f), []):
+                    if p not in props:
+                        props.append(p)
+        else:
+            props = [meta["property"]] + [a for a in meta.get("also", []) if a != meta["property"]]
+    if safe and not os.path.exists(demo):
+        demo = None
     ran = []
     # --- 1. confirm in the scratch worktree
     sh("git checkout -- src && rm -rf tests", cwd=mut)
     os.makedirs(os.path.join(mut, "tests"), exist_ok=True)
-    shutil.copyfile(demo, os.path.join(mut, "tests", "demo.rs"))
-    rc0, out0 = sh("cargo test --offline --test demo 2>&1 | tail -5", cwd=mut)
-    clean_pass = "test result: ok" in out0
+    if demo:
+        shutil.copyfile(demo, os.path.join(mut, "tests", "demo.rs"))
+        rc0, out0 = sh("cargo test --offline --features borsh --test demo 2>&1 | tail -5", cwd=mut)
+        clean_pass = "test result: ok" in out0
+    else:
+        clean_pass = True
     ran.append("unchanged crate: cargo test --offline --test demo -> " + ("pass" if clean_pass else "FAIL"))
     rc, out = sh(f"git apply {patch}", cwd=mut)
     if rc != 0:
         print("patch does not apply:", out); sh("git checkout -- src && rm -rf tests", cwd=mut); return 2
-    os.remove(os.path.join(mut, "tests", "demo.rs"))
+    if demo:
+        os.remove(os.path.join(mut, "tests", "demo.rs"))
     rc1, out1 = sh("cargo test --offline 2>&1 | grep 'test result' | head -1", cwd=mut)
     suite_pass = "94 passed; 0 failed" in out1
     ran.append("patched crate: cargo test --offline -> " + out1.strip())
-    shutil.copyfile(demo, os.path.join(mut, "tests", "demo.rs"))
-    rc2, out2 = sh("cargo test --offline --test demo 2>&1 | tail -8", cwd=mut)
-    demo_fails = "test result: FAILED" in out2 or "panicked" in out2
-    ran.append("patched crate: cargo test --offline --test demo -> " + ("FAIL (as intended)" if demo_fails else "pass (NOT a valid seed)"))
+    if demo:
+        shutil.copyfile(demo, os.path.join(mut, "tests", "demo.rs"))
+        rc2, out2 = sh("cargo test --offline --features borsh --test demo 2>&1 | tail -8", cwd=mut)
+        demo_fails = "test result: FAILED" in out2 or "panicked" in out2
+    else:
+        demo_fails = False
+    ran.append("patched crate: cargo test --offline --features borsh --test demo -> " + ("FAIL" if demo_fails else "pass"))
     sh("git checkout -- src && rm -rf tests", cwd=mut)
-    valid = clean_pass and suite_pass and demo_fails
+    valid = clean_pass and suite_pass and (demo_fails != safe)
     print(f"[{dest}] confirm: clean_demo_pass={clean_pass} suite_pass={suite_pass} demo_fails={demo_fails}")
     results = {}
     if valid:
@@ -61,8 +82,9 @@ def main():
     d = os.path.join("/verif/seeded", dest)
     os.makedirs(d, exist_ok=True)
     shutil.copyfile(patch, os.path.join(d, "patch.diff"))
-    shutil.copyfile(demo, os.path.join(d, "demo.rs"))
-    meta.update({"valid_seed": valid, "what_i_ran": ran, "checks": results,
+    if demo:
+        shutil.copyfile(demo, os.path.join(d, "demo.rs"))
+    meta.update({"expected": "pass (behaviour-preserving refactoring)" if safe else "violation", "valid_seed": valid, "what_i_ran": ran, "checks": results,
                  "detected_by": [p for p, r in results.items() if r["exit"] != 0],
                  "with_failing_input": [p for p, r in results.items() if r["exit"] != 0 and not any("no-failing-input-found" in l for l in r["output"])]})
     json.dump(meta, open(os.path.join(d, "meta.json"), "w"), indent=1)
